@@ -117,13 +117,15 @@ def _c16_harnesses():
     hs = []
     for kind, label in (("pairs", "(u8, Option<u8>) pairs"), ("whole", "whole-item ordering (SortedDequeItem)")):
         for op, owner, post, covers, mp in ops:
+          split = op in ("remove", "pop_first", "pop_last", "iter_clear")
+          for suffix in (("_a", "_b") if split else ("",)):
             hs.append(Harness(
-                "c16_%s_%s" % (kind, op), ["C16"], owner,
+                "c16_%s_%s%s" % (kind, op, suffix), ["C16"], owner,
                 "[%s] requires rep_ok (sorted keys, first/last live, inner deque invariant); ensures rep_ok /\\ %s"
                 % (label, post), kind="bounded",
                 bound="at most {M} physical items: every (length, consumed prefix) enumerated; keys, values, erased flags "
                       "symbolic; inductive per operation => all histories within that size",
-                covers=covers, timeout=1200, mod="sorted_deque", must_panic_in=mp))
+                covers=(0 if split else covers), timeout=1200, mod="sorted_deque", must_panic_in=mp))
     return hs
 
 
@@ -232,8 +234,9 @@ KANI_UNITS = {u.crate: u for u in [VOUCHED_TIME, SLIDING_DEQUE, ROUGH_TLV, HCOBS
 import units_hcobs
 import units_vouched_time
 import units_sliding_deque
+import units_chunker
 VERUS_UNITS = {"hcobs": units_hcobs.HCOBS, "vouched_time": units_vouched_time.VOUCHED_TIME_VX,
-               "sliding_deque": units_sliding_deque.SLIDING_DEQUE_VX}
+               "sliding_deque": units_sliding_deque.SLIDING_DEQUE_VX, "chunker": units_chunker.CHUNKER}
 
 # property -> description of how it is decided
 PROPERTIES = {
@@ -303,6 +306,25 @@ PROPERTIES["C18"] = {
         "CBMC invert raffle's 64-bit multiplication and does not finish",
         "std::sync::Mutex runs as real code under Kani; get_base_time_unlocked is `BASE_TIME.snapshot()` on the module's "
         "static (one line, by inspection)",
+    ],
+}
+
+PROPERTIES["C08"] = {
+    "level": "proof",
+    "kani_units": [],
+    "verus_units": ["chunker"],
+    "assumptions": [
+        "ASSUMED (vx/chunker/assumed.rs): `(&mut slice).chain(&mut reader)` handed to `ByteArena::read_n(.., count, MAX)` returns "
+        "exactly the first min(count, available) bytes of carried ++ remaining(reader) and advances the reader accordingly (N9 "
+        "alias read_n_chained): Chain order, read_n's loop (bounded Kani check c17_*), short reads and Interrupted in any pattern, "
+        "NO hard I/O errors (C08's quantifier has none)",
+        "ASSUMED: AnchoredSlice::{slice, take, skip_prefix, split_at} act on the exposed bytes as documented; arena states and "
+        "memory liveness are out of scope (C05)",
+        "ASSUMED: find_stuff_sequence returns the first FE FD index (bounded Kani harness c07_find_stuff_sequence_bounded)",
+        "the reader is moved into pump: that the caller's reader has advanced by what pump consumed (impl Read for &mut R) is "
+        "part of the reader model; the tiling of successive calls follows from the per-call contract by induction on calls "
+        "(lemma theorem_c08_tiling)",
+        "requires: the stream's absolute length fits in u64",
     ],
 }
 
